@@ -12,6 +12,7 @@
   KavaVerif/Proofs/Precisebank.lean.
 -/
 import KavaVerif.Proofs.Precisebank
+import KavaVerif.Proofs.TieFnPrecisebank
 set_option linter.unusedSimpArgs false
 set_option linter.unusedVariables false
 
@@ -340,5 +341,25 @@ example : (send 0 exSt 3 1 0 1).isOk = true := by decide
 example : (mint 0 exSt 1 true 0 700000000000).isOk = true := by decide
 example : (burn 0 exSt 2 true 0 700000000000).isOk = true := by decide
 example : (Op.send 2 1 0 1500000000000).wf [1, 2, 3] := by simp [Op.wf]
+
+/-! ## source tie (regenerated)
+
+    `GoFn.Precisebank.*` (Generated/FnPrecisebank.lean) is regenerated on every run from the Go source of
+    x/precisebank/keeper/send.go by the function translator (tools/extract/fn*.go); the theorems say that the
+    regenerated definitions ARE the hand-written model functions the theorems above are about.  A source edit
+    re-opens the obligation of the edited function.  Proofs: Proofs/TieFnPrecisebank.lean. -/
+
+/-- `subFromFractionalBalance` = (`subFrac`, "borrow required") whenever both operands are below the conversion
+    factor (otherwise the Go function panics; `sendExtendedCoins` passes a stored fractional balance and `amt % C`) -/
+theorem C03_source_tie_subFromFractionalBalance (cur amt : Int) (h1 : cur < C) (h2 : amt < C) :
+    GoFn.Precisebank.subFromFractionalBalance_translated = true ∧
+    GoFn.Precisebank.subFromFractionalBalance cur amt = Go.R.ok (subFrac cur amt, decide (cur - amt < 0)) :=
+  TieFn.precisebank_subFromFractionalBalance cur amt h1 h2
+
+/-- `addToFractionalBalance` = (`addFrac`, "carry required"), same domain -/
+theorem C03_source_tie_addToFractionalBalance (cur amt : Int) (h1 : cur < C) (h2 : amt < C) :
+    GoFn.Precisebank.addToFractionalBalance_translated = true ∧
+    GoFn.Precisebank.addToFractionalBalance cur amt = Go.R.ok (addFrac cur amt, decide (cur + amt ≥ C)) :=
+  TieFn.precisebank_addToFractionalBalance cur amt h1 h2
 
 end KV.PB
